@@ -372,6 +372,14 @@ def _ref_expr(model, ref):
 
 def script(model):
     L = ["project('graph', version='1.0')"]
+    decor = model.get('decor') or {}
+    for o in decor.get('global_options', []):
+        L.append("global_options({!r}, lang='c')".format(o))
+    for o in decor.get('global_link_options', []):
+        L.append("global_link_options({!r})".format(o))
+    for h in decor.get('pch_headers', []):
+        L.append('pch_{} = precompiled_header(file={!r})'.format(
+            h.replace('.', '_'), h))
     for st_ in model['steps']:
         v = 'v{}'.format(st_['id'])
         kind = st_['kind']
@@ -387,7 +395,15 @@ def script(model):
         elif kind in ('exe', 'slib', 'shlib'):
             fn = {'exe': 'executable', 'slib': 'static_library',
                   'shlib': 'shared_library'}[kind]
+            if kind != 'exe' and st_['id'] in decor.get('dual', []):
+                fn = 'library'
             libs = ''
+            if st_.get('pch'):
+                extra += ', pch=pch_{}'.format(st_['pch'].replace('.', '_'))
+            if st_.get('copts'):
+                extra += ', compile_options={!r}'.format(st_['copts'])
+            if st_.get('lopts') and kind != 'slib':
+                extra += ', link_options={!r}'.format(st_['lopts'])
             if st_['libs']:
                 libs = ', libs=[{}]'.format(', '.join(
                     'v{}'.format(i) for i in st_['libs']))
@@ -397,6 +413,8 @@ def script(model):
             outs = st_['outs'] if len(st_['outs']) > 1 else st_['outs'][0]
             cmd = ['rec', 'STEP:{}'.format(st_['id'])] + \
                 ['--vf-out=' + o for o in st_['outs']]
+            if st_.get('env'):
+                extra += ', environment={!r}'.format(st_['env'])
             L.append('{} = build_step({!r}, cmd={!r}, files={}{}{})'.format(
                 v, outs, cmd, files, extra,
                 ', always_outdated=True' if st_['always'] else ''))
@@ -408,6 +426,8 @@ def script(model):
                 v, st_['name'], ', '.join(_ref_expr(model, r)
                                           for r in st_['extra'])))
         elif kind == 'command':
+            if st_.get('env'):
+                extra += ', environment={!r}'.format(st_['env'])
             L.append('{} = command({!r}, cmd=["rec", "CMD:{}"]{})'.format(
                 v, st_['name'], st_['name'], extra))
     if model['default']:
